@@ -28,12 +28,14 @@ import (
 // height sequence is a replayable function of the seed.
 
 type KOp struct {
-	K string `json:"k"` // put | get | remove | churn
+	K string `json:"k"` // put | get | remove | churn | fill
 	I int    `json:"i"` // key index into the universe
 	V int    `json:"v,omitempty"`
 	// N, for "churn": the number of rounds of Put(k, v), Get(k), Remove(k)
 	// over the three keys I, I+1, I+2 in turn — the life of a long-lived list
 	// written as one operation (the map model is the same before and after).
+	// For "fill": N further keys (outside the universe) are inserted so that
+	// they are all live at once, looked up, and removed again.
 	N int `json:"n,omitempty"`
 }
 
@@ -98,7 +100,7 @@ func parseList(s string) ([]pnode, error) {
 
 // runHistory executes h against the real skip list and a Go map. Must be
 // called inside a bubble whose clock the caller controls.
-func runHistory[K comparable, V any](h History, universe []K, cmp ord.Ord[K], show func(K) string, mk func(int) V, eq func(a, b V) bool, st *c18Stats) (res *driver.Violation) {
+func runHistory[K comparable, V any](h History, universe []K, extra func(int) K, cmp ord.Ord[K], show func(K) string, mk func(int) V, eq func(a, b V) bool, st *c18Stats) (res *driver.Violation) {
 	viol := func(clause, class, format string, args ...any) *driver.Violation {
 		return &driver.Violation{Property: "C18", Clause: clause, Stage: "skiplist/" + h.Keys, Class: class, Msg: fmt.Sprintf(format, args...)}
 	}
@@ -149,6 +151,32 @@ func runHistory[K comparable, V any](h History, universe []K, cmp ord.Ord[K], sh
 			got := list.Get(k)
 			if want := ref[k]; !eq(got, want) {
 				return viol("C18.a", "Get returned a value different from the map model", "history %v: op %d get(%v) = %v, model %v", h, n, show(k), got, want)
+			}
+		case "fill":
+			var zero V
+			for j := 0; j < op.N; j++ {
+				list.Put(extra(j), mk(1+j%7))
+			}
+			// the list is at its largest now: present and absent keys, and the
+			// keys of the universe that the model holds
+			for j := 0; j < op.N; j += max(1, op.N/257) {
+				if got := list.Get(extra(j)); !eq(got, mk(1+j%7)) {
+					return viol("C18.a", "Get returned a value different from the map model", "history %v: op %d, with %d further keys live: get(%v) = %v, model %v", h, n, op.N, show(extra(j)), got, mk(1+j%7))
+				}
+			}
+			if got := list.Get(extra(op.N + 5)); !eq(got, zero) {
+				return viol("C18.a", "Get returned a value different from the map model", "history %v: op %d, with %d further keys live: get(absent %v) = %v", h, n, op.N, show(extra(op.N+5)), got)
+			}
+			for uk, want := range ref {
+				if got := list.Get(uk); !eq(got, want) {
+					return viol("C18.a", "Get returned a value different from the map model", "history %v: op %d, with %d further keys live: get(%v) = %v, model %v", h, n, op.N, show(uk), got, want)
+				}
+			}
+			for j := op.N - 1; j >= 0; j-- {
+				got := list.Remove(extra(j))
+				if j%4099 == 0 && !eq(got, mk(1+j%7)) {
+					return viol("C18.a", "Remove returned a value different from the map model", "history %v: op %d, removing the further keys: remove(%v) = %v, model %v", h, n, show(extra(j)), got, mk(1+j%7))
+				}
 			}
 		case "churn":
 			var zero V
@@ -319,20 +347,24 @@ func execHistory(h History, st *c18Stats) *driver.Violation {
 	rev := ord.From[int](func(a, b int) ord.Ordering { return ord.Int.Compare(b, a) })
 	switch h.Keys {
 	case "int":
-		return runHistory[int, int](h, intUniverse, ord.Int, strconv.Itoa, idInt, eqInt, st)
+		return runHistory[int, int](h, intUniverse, moreInts, ord.Int, strconv.Itoa, idInt, eqInt, st)
 	case "intrev":
-		return runHistory[int, int](h, intUniverse, rev, strconv.Itoa, idInt, eqInt, st)
+		return runHistory[int, int](h, intUniverse, moreInts, rev, strconv.Itoa, idInt, eqInt, st)
 	case "string":
-		return runHistory[string, int](h, strUniverse, ord.String, func(s string) string { return s }, idInt, eqInt, st)
+		return runHistory[string, int](h, strUniverse, moreStrings, ord.String, func(s string) string { return s }, idInt, eqInt, st)
 	case "int/slice": // values of a type that cannot be compared with ==
-		return runHistory[int, []int](h, intUniverse, ord.Int, strconv.Itoa, func(v int) []int { return []int{v} }, slices.Equal[[]int], st)
+		return runHistory[int, []int](h, intUniverse, moreInts, ord.Int, strconv.Itoa, func(v int) []int { return []int{v} }, slices.Equal[[]int], st)
 	case "string/any": // interface values holding maps
-		return runHistory[string, any](h, strUniverse, ord.String, func(s string) string { return s },
+		return runHistory[string, any](h, strUniverse, moreStrings, ord.String, func(s string) string { return s },
 			func(v int) any { return map[int]bool{v: true} },
 			func(a, b any) bool { return reflect.DeepEqual(a, b) }, st)
 	}
 	return &driver.Violation{Property: "C18", Clause: "infra", Class: "unknown key type " + h.Keys}
 }
+
+// keys outside the universes, for "fill"
+func moreInts(i int) int       { return 1000 + 3*i }
+func moreStrings(i int) string { return "key/" + strconv.Itoa(i) }
 
 var bubbleStart time.Time
 
@@ -357,7 +389,11 @@ func genHistory(r *driver.Rand, thorough bool) History {
 	if strings.HasPrefix(h.Keys, "string") && uni > len(strUniverse) {
 		uni = len(strUniverse)
 	}
-	mode := r.Intn(5)
+	mode := r.Intn(6)
+	if mode == 5 {
+		// one key written again and again without a Remove in between
+		n = max(n, 25+r.Intn(60))
+	}
 	for i := 0; i < n; i++ {
 		k := r.Intn(uni)
 		var op KOp
@@ -369,6 +405,11 @@ func genHistory(r *driver.Rand, thorough bool) History {
 				op = KOp{K: "put", I: (uni - 1 - i%uni), V: 1 + i}
 			} else {
 				op = KOp{K: driver.Pick(r, "remove", "remove", "get"), I: k}
+			}
+		case 5:
+			op = KOp{K: "put", I: 1, V: 1 + i%9}
+			if r.Chance(1, 12) {
+				op = KOp{K: driver.Pick(r, "get", "put"), I: k, V: r.Intn(5)}
 			}
 		case 2: // duplicates / overwrites
 			op = KOp{K: driver.Pick(r, "put", "put", "put", "get", "remove"), I: k, V: r.Intn(3)}
@@ -395,7 +436,7 @@ func shrinkHistory(h History, fails func(History) bool) History {
 	cur := h
 	// fewer churn rounds first (they dominate the cost of every attempt)
 	for i := range cur.Ops {
-		for cur.Ops[i].K == "churn" && cur.Ops[i].N > 1 {
+		for (cur.Ops[i].K == "churn" || cur.Ops[i].K == "fill") && cur.Ops[i].N > 1 {
 			q := cur
 			q.Ops = append([]KOp(nil), cur.Ops...)
 			q.Ops[i].N = cur.Ops[i].N / 2
@@ -606,8 +647,8 @@ func runC18(t *testing.T, in *driver.WorkerIn) *driver.WorkerOut {
 			rounds = 1<<24 + 1<<16
 		}
 		for _, keys := range []string{"int", "string"} {
-			runBatch([]History{{Keys: keys, ClockN: 12345, PrintAt: []int{0, 3}, Ops: []KOp{
-				{K: "put", I: 5, V: 1}, {K: "churn", I: 1, N: rounds}, {K: "get", I: 5}, {K: "put", I: 2, V: 3}, {K: "remove", I: 5, V: 1}, {K: "get", I: 2},
+			runBatch([]History{{Keys: keys, ClockN: 12345, PrintAt: []int{0, 4}, Ops: []KOp{
+				{K: "put", I: 5, V: 1}, {K: "churn", I: 1, N: rounds}, {K: "get", I: 5}, {K: "fill", N: 1<<21 + 1<<12}, {K: "put", I: 2, V: 3}, {K: "remove", I: 5, V: 1}, {K: "get", I: 2},
 			}}}, true)
 			if keys == "int" && !in.Thorough {
 				break
